@@ -136,8 +136,7 @@ package task
 //@   property C04
 //@   opt strings=uf
 //@   pure
-//@   requires t != nil
-//@   ensures t.parent != nil ==> id == envOfRole(t.parent)
+//@   ensures t != nil && t.parent != nil ==> id == envOfRole(t.parent)
 
 // releaseTask: a task owned by ANOTHER environment is refused and left untouched; otherwise it becomes unowned.
 // Frame: nothing but this task's parent link is written.
@@ -190,3 +189,68 @@ package task
 //@   loop 1 invariant #i >= -1 && #i < len(m) && fresh(tasks)
 //@   loop 1 invariant forall k int :: 0 <= k && k < len(tasks) ==> acc[tasks[k]]
 //@   loop 1 invariant forall k int :: 0 <= k && k < len(tasks) ==> exists j int :: 0 <= j && j <= #i && tasks[k] == m[j]
+
+// ---------------------------------------------------------------------------------------------------------
+// C03: a terminal Mesos status (lost, killed, failed, error) of an owned task is turned into task state ERROR.
+// C18: a reconciliation answer leads to a KILL only for a task this core does not own.
+//@ func (m *Manager) handleMessage(tm *TaskmanMessage) (err error)
+//@   property C03 C18
+//@   ghostvar mst int = -1
+//@   ghostvar found bool = false
+//@   ghostvar lockedSeen bool = false
+//@   ghostvar errSpawned bool = false
+//@   ghostvar notOwned bool = false
+//@   ghostvar killed bool = false
+//@   on aftercall (*mesos.TaskStatus).GetState : mst = result
+//@   on aftercall (*Manager).GetTask : found = (result != nil) ; notOwned = (result == nil) ; lockedSeen = false
+//@   on aftercall (*Task).IsLocked : lockedSeen = result ; notOwned = notOwned || !result
+//@   on go (*Manager).updateTaskState when arg2 == "ERROR" : errSpawned = true
+//@   on call calls.Kill : assert notOwned ; killed = true
+//@   ensures (mst == mesos.TASK_LOST || mst == mesos.TASK_KILLED || mst == mesos.TASK_FAILED || mst == mesos.TASK_ERROR) && found && lockedSeen ==> errSpawned
+
+// updateTaskState: a task in the roster takes the new state and hands it to its role
+//@ func (m *Manager) updateTaskState(taskId string, state string)
+//@   property C03
+//@   ghostvar inRoster bool = false
+//@   ghostvar hasParent bool = false
+//@   ghostvar stored bool = false
+//@   ghostvar told bool = false
+//@   on aftercall (*roster).getByTaskId : inRoster = (result != nil)
+//@   on store task.Task.state : stored = true
+//@   on aftercall (*Task).GetParent : hasParent = (result != nil)
+//@   on call .UpdateState : assert stored ; told = true
+//@   ensures inRoster ==> stored
+//@   ensures inRoster && hasParent ==> told
+
+// executor / agent failure: every task of the failed executor or agent gets an ERROR + INACTIVE update
+//@ func (m *Manager) HandleExecutorFailed(e *event.ExecutorFailedEvent) (envs map[uid.ID]struct{})
+//@   property C03
+//@   ghostvar spawned int = 0
+//@   ghostvar total int = 0
+//@   on aftercall (*roster).filtered : total = len(result)
+//@   on go (*Manager).HandleExecutorFailed$2 : spawned = spawned + 1
+//@   loop 1 invariant spawned == #i + 1 && #i < len(tasksForFailedExecutor) && total == len(tasksForFailedExecutor)
+//@   ensures envs != nil ==> spawned == total
+//@ closure (*Manager).HandleExecutorFailed #2
+//@   property C03
+//@   ghostvar toldError bool = false
+//@   ghostvar inactive bool = false
+//@   on call (*Manager).updateTaskState : assert arg2 == "ERROR" ; toldError = true
+//@   on store task.Task.status : assert value == INACTIVE ; inactive = true
+//@   ensures toldError && inactive
+
+//@ func (m *Manager) HandleAgentFailed(e *event.AgentFailedEvent) (envs map[uid.ID]struct{})
+//@   property C03
+//@   ghostvar spawned int = 0
+//@   ghostvar total int = 0
+//@   on aftercall (*roster).filtered : total = len(result)
+//@   on go (*Manager).HandleAgentFailed$2 : spawned = spawned + 1
+//@   loop 1 invariant spawned == #i + 1 && #i < len(tasksForFailedExecutor) && total == len(tasksForFailedExecutor)
+//@   ensures envs != nil ==> spawned == total
+//@ closure (*Manager).HandleAgentFailed #2
+//@   property C03
+//@   ghostvar toldError bool = false
+//@   ghostvar inactive bool = false
+//@   on call (*Manager).updateTaskState : assert arg2 == "ERROR" ; toldError = true
+//@   on store task.Task.status : assert value == INACTIVE ; inactive = true
+//@   ensures toldError && inactive
